@@ -236,6 +236,7 @@ type Case struct {
 	ForeignVol  bool       `json:"foreign_vol,omitempty"` // a volume of another recovery set named <base>.zforeign.par2
 	DupVol      bool       `json:"dup_vol,omitempty"`     // a copy of the first recovery file named <base>.dup.par2
 	CorruptVol  int        `json:"corrupt_vol,omitempty"` // 1+index of a recovery file in which one byte is flipped (0 = none)
+	SiblingVols bool       `json:"sibling_vols,omitempty"` // recovery files replaced by those of a sibling set with the same set ID (same names, lengths, first 16 KiB; different tails)
 }
 
 // Obs is everything observed when running a Case.
@@ -366,6 +367,34 @@ func Run(c Case, skipRepair bool) *Obs {
 		if del[i] {
 			os.Remove(filepath.Join(dir, v))
 			continue
+		}
+	}
+	if c.SiblingVols {
+		sib := map[string][]byte{}
+		differs := false
+		for n, d := range o.Originals {
+			e := append([]byte{}, d...)
+			for i := 16384; i < len(e); i++ {
+				e[i] ^= 0x55
+				differs = true
+			}
+			sib[n] = e
+		}
+		if differs {
+			sdir := filepath.Join(o.Dir, "sibling")
+			fsx.WriteTree(sdir, sib)
+			var sp []string
+			for _, n := range o.Names {
+				sp = append(sp, filepath.Join(sdir, n))
+			}
+			if par2.Create(filepath.Join(sdir, c.IndexName()), sp, par2.CreateOptions{SliceByteCount: c.Slice, NumParityShards: c.NRec, NumGoroutines: 1}) == nil {
+				for _, v := range o.VolFiles {
+					if b, err := os.ReadFile(filepath.Join(sdir, v)); err == nil {
+						os.WriteFile(filepath.Join(dir, v), b, 0o644)
+						o.Outputs[v] = b
+					}
+				}
+			}
 		}
 	}
 	if c.CorruptVol > 0 && len(o.VolFiles) > 0 {
